@@ -24,13 +24,13 @@ Full == IF "MC_FULL" \in DOMAIN IOEnv THEN IOEnv.MC_FULL = "1" ELSE FALSE
 
 Kinds == {"crc_xip", "crc_ram", "v1_xip", "v1_ram", "v1_enc", "v21_dig", "v21_crc"}
 RomOf(k) ==
-  CASE k = "crc_xip" -> [type |-> 5, cb |-> 0,  hmac |-> FALSE, tz |-> 412, man |-> 0]
-    [] k = "crc_ram" -> [type |-> 2, cb |-> 0,  hmac |-> FALSE, tz |-> 412, man |-> 0]
-    [] k = "v1_xip"  -> [type |-> 4, cb |-> 1,  hmac |-> FALSE, tz |-> 464, man |-> 0]
-    [] k = "v1_ram"  -> [type |-> 1, cb |-> 1,  hmac |-> TRUE,  tz |-> 1140, man |-> 0]
-    [] k = "v1_enc"  -> [type |-> 3, cb |-> 1,  hmac |-> TRUE,  tz |-> 1140, man |-> 0]
-    [] k = "v21_dig" -> [type |-> 4, cb |-> 21, hmac |-> FALSE, tz |-> 556, man |-> 1]
-    [] k = "v21_crc" -> [type |-> 4, cb |-> 21, hmac |-> FALSE, tz |-> 980, man |-> 2]
+  CASE k = "crc_xip" -> [type |-> 5, cb |-> 0,  hmac |-> FALSE, tz |-> 412, man |-> 0, ksdev |-> FALSE]
+    [] k = "crc_ram" -> [type |-> 2, cb |-> 0,  hmac |-> FALSE, tz |-> 412, man |-> 0, ksdev |-> FALSE]
+    [] k = "v1_xip"  -> [type |-> 4, cb |-> 1,  hmac |-> FALSE, tz |-> 464, man |-> 0, ksdev |-> FALSE]
+    [] k = "v1_ram"  -> [type |-> 1, cb |-> 1,  hmac |-> TRUE,  tz |-> 1140, man |-> 0, ksdev |-> FALSE]
+    [] k = "v1_enc"  -> [type |-> 3, cb |-> 1,  hmac |-> TRUE,  tz |-> 1140, man |-> 0, ksdev |-> FALSE]
+    [] k = "v21_dig" -> [type |-> 4, cb |-> 21, hmac |-> FALSE, tz |-> 556, man |-> 1, ksdev |-> FALSE]
+    [] k = "v21_crc" -> [type |-> 4, cb |-> 21, hmac |-> FALSE, tz |-> 980, man |-> 2, ksdev |-> FALSE]
 
 AppLens == IF Full THEN {56, 60, 64, 68, 300, 4096, 20004} ELSE {56, 60, 64, 300}
 KeyBytes == IF Full THEN {256, 384, 512} ELSE {256, 384}
